@@ -317,7 +317,7 @@ func runC07(c *Ctx) {
 							}
 							if isSliceVal(a) {
 								touches = true
-								if !readers[e.Name] {
+								if !readers[e.Name] && !c07PureReader(c, e) {
 									bad = "the backing slice is passed to " + e.Name + ", which could keep or write it"
 								}
 							}
@@ -1049,4 +1049,36 @@ func isSortedCtorName(c *Ctx, name string) bool {
 		return ok && nt.Origin().Obj().Name() == "Sorted"
 	}
 	return false
+}
+
+// c07PureReader: the callee is a function of the module that, by its effect summary, writes nothing but its own
+// locals, and that cannot hand the slice back: it returns only values without reference components (an index, a flag,
+// an element count), or it is slices.Clone, whose fresh result the clone-helper rule decides.
+func c07PureReader(c *Ctx, e *Event) bool {
+	if e.SSAFn == nil {
+		return false
+	}
+	fi := c.P.BySSA[e.SSAFn]
+	if fi == nil || e.SSAFn != fi.SSA {
+		if o := e.SSAFn.Origin(); o != nil {
+			fi = c.P.BySSA[o]
+		}
+		if fi == nil {
+			return false
+		}
+	}
+	es := c.An.FuncEffects(fi.SSA)
+	if es.all || len(es.cls) > 0 {
+		return false
+	}
+	if fi.Name == "slices.Clone" {
+		return true
+	}
+	res := fi.Obj.Type().(*types.Signature).Results()
+	for i := 0; i < res.Len(); i++ {
+		if b, ok := res.At(i).Type().Underlying().(*types.Basic); !ok || b.Kind() == types.UnsafePointer {
+			return false
+		}
+	}
+	return true
 }
